@@ -147,6 +147,7 @@ func ModOps(full bool) []Op {
 		add(k, "")
 		add(k, "a.com/x@v1.1.0")
 		add(k, "a.com/x@v1.0.0!,b.com/y@v1.1.0")
+		add(k, "a.com/x@v1.1.0,b.com/y@v1.0.0,c.com/z@v1.0.0!")
 		add(k, "require@v1.1.0,exclude@v1.1.0!")
 		if full {
 			add(k, "b.com/y@v1.0.0!,a.com/x/v2@v2.0.0")
